@@ -580,6 +580,30 @@ def make(env, profile, res, part):
             case = {"part": part["name"], "features": fs, "free": _names(ref_free(f))}
             case.update(how if how is not None else {"term": termio.dump(f)})
             res.sample(case, limit=2)
+        if not fails and part.get("foreign") and not how:
+            # the copy of f in a companion environment that is never pushed: its analyses go through the
+            # oracles of the environment on top of the stack (this one), next to this one's own formulas
+            env2 = getattr(env, "_c12_other_env", None)
+            if env2 is None or len(env2.formula_manager.formulae) > 200000:
+                env2 = env._c12_other_env = Environment()
+            try:
+                f2 = env2.formula_manager.normalize(f)
+                fails2 = an.verdict(f2, {})
+            except Exception as e:
+                fails2 = {"exception": "analysing the copy raised %r" % (e,)}
+            res.count("foreign_copies")
+            if fails2:
+                k0 = sorted(fails2)[0]
+                key = ("foreign", k0)
+                if key in reported:
+                    res.count("violations_same_subterm")
+                    return
+                reported.add(key)
+                res.violation(part["name"], "foreign-environment:%s" % k0,
+                              "%s: the copy of %s in an environment that is not on top of the stack: %s"
+                              % (part["name"], _show(f), fails2[k0]),
+                              {"part": part["name"], "kind": "foreign:" + k0, "term": termio.dump(f)})
+            return
         if not fails:
             return
         an.cache[f] = fails
@@ -634,6 +658,10 @@ def mix_profile(env, quant=True):
     AIAU = ("Array", INT, ("Array", ("Sort", "U", ()), INT))
     p.leaf(AIT, p.sym("N1", AIT), p.sym("N2", AIT))
     p.leaf(AIAU, p.sym("K1", AIAU), p.sym("K2", AIAU))
+    # a declared sort that merely shares its name with a built-in one, used next to the built-in
+    UI = ("Sort", "Int", ())
+    p.leaf(UI, p.sym("ui", UI), p.sym("uj", UI))
+    p.op("eqI", [UI, UI], BOOL, lambda m, a, b: m.Equals(a, b))
     p.op("eqT", [AIT, AIT], BOOL, lambda m, a, b: m.Equals(a, b))
     p.op("eqU", [AIAU, AIAU], BOOL, lambda m, a, b: m.Equals(a, b))
     p.op("not", [BOOL], BOOL, lambda m, a: m.Not(a))
@@ -775,7 +803,7 @@ def parts(ctx):
                             "exists_ab", "forall_w", "exists_au", "forall_ux"),
           top_ops=(lambda o: _QOPS(o) or o.name in ("not", "and", "implies")), max_new=1)
     # ---- mixed shapes (own profiles)
-    A(name="mix-d2", profile=mix_profile, depth=2, shards=32, dom={INT: (0, 1)},
+    A(name="mix-d2", profile=mix_profile, depth=2, shards=32, dom={INT: (0, 1)}, foreign=True,
       top_ops=_not_named("bite", "ite", "store"))
     A(name="mix-d2-tern", profile=mix_profile, depth=2, shards=64, dom={INT: (0, 1)},
       top_ops=_names_in("bite", "ite", "store"), max_new=2)
@@ -885,6 +913,15 @@ def replay(rec):
                 f = step(f, i)
             shown = "chain %s of depth %d" % (case["chain_name"], case["depth"])
         kind = case.get("kind")
+        if str(kind).startswith("foreign:"):
+            an = Analyser(env, {"name": "replay", "cap": CAP_THOROUGH, "dom": {INT: (0, 1)}})
+            an.verdict(f)
+            env2 = Environment()
+            fails = an.verdict(env2.formula_manager.normalize(f))
+            if fails:
+                k = sorted(fails)[0]
+                return False, "copy of %s in an environment that is not on top of the stack: %s: %s" % (shown, k, fails[k])
+            return True, "all analyses of the copy of %s in another environment are exact" % shown
         fails = {}
         # the structural comparisons do not depend on the pools; the semantic tests are repeated over
         # every pool used by a part
